@@ -16,6 +16,7 @@ enum {
 	EV_START,      // work item / handler starts (id = item id)
 	EV_END,        // work item / handler ends   (id = item id)
 	EV_NOTE,       // free-form observation      (id, arg)
+	EV_FREE,       // free() of a watched pointer (id given to vx_watch_free)
 	EV_USER = 16,  // harness-private kinds start here
 };
 
@@ -49,7 +50,8 @@ void vx_focus_end(void);
 void vx_expect_crash(void);           // a trap from here on is the expected outcome
 void vx_fail(const char *fmt, ...) __attribute__((format(printf,1,2), noreturn));
 int  vx_self(void);                   // scheduler thread index of the caller
-void vx_note(const char *note);       // what the calling thread is doing (shown in stuck witnesses)
+void vx_note(const char *note);
+void vx_watch_free(void *p, int id);  // log EV_FREE(id) when free(p) is called       // what the calling thread is doing (shown in stuck witnesses)
 
 // virtual clocks (ns).  All advance at the same rate from distinct bases.
 #define VX_BASE_MONOTONIC  (10ull * 1000000000ull)
